@@ -125,7 +125,11 @@ def run(ctx: core.Ctx):
                 ctx.fail(variant, inp, band.tolist(), np.asarray(fixed).tolist(), note="band must equal the fixed-lambda smoother at the reported lambda")
         else:
             valid_vals = arr[w > 0]
-            zeroed = np.all(band == 0) and np.any(valid_vals != 0)
+            # "zeroed" = the degenerate outcome (NaN weights -> a curve of NaN stored as zeros).  A low-amplitude series (valid cells
+            # within +-3, say) can legitimately round to zero everywhere: only amplitudes for which no PLS curve through the valid cells
+            # rounds to zero at every cell are judged (the mean of the valid cells, which every Whittaker curve of weights in [0,1]
+            # brackets with its extremes, is at least 1 away from 0 on both ... conservatively: the valid cells do not straddle 0)
+            zeroed = np.all(band == 0) and (valid_vals.min() >= 1 or valid_vals.max() <= -1)
             if zeroed:
                 ctx.fail(variant, inp, band.tolist(), "a finite Whittaker curve through the valid cells, not zeros",
                          note="robust mode must not degenerate (NaN weights / singular system -> zeros)")
